@@ -469,5 +469,38 @@ func Gen(seed uint64, prop, tier string) *Spec {
 			s.Files[i].Doc = map[string]any{"summary": "only a summary", "description": "and a description"}
 		}
 	}
+	// a deliberate chain, when the layout has the pieces: the root's operation uses a callback that
+	// lives in another whole document A, whose path item is a whole-file reference to a path-item
+	// file P (often in yet another directory, sometimes summary-only)
+	if r.Chance(1, 3) {
+		a, p := -1, -1
+		for i := 1; i < len(s.Files); i++ {
+			if s.Files[i].Kind == "whole" && a < 0 {
+				a = i
+			}
+			if s.Files[i].Kind == "single:pathItem" && p < 0 {
+				p = i
+			}
+		}
+		if a > 0 && p > 0 {
+			g.cur = a
+			if adoc, ok := s.Files[a].Doc.(map[string]any); ok {
+				if comps, ok := adoc["components"].(map[string]any); ok {
+					if cbs, ok := comps["callbacks"].(map[string]any); ok {
+						cbs["Tcallback"] = map[string]any{"{$request.body#/cb}": map[string]any{"$ref": g.ref(a, p, "")}}
+					}
+				}
+			}
+			g.cur = 0
+			if rdoc, ok := s.Files[0].Doc.(map[string]any); ok {
+				if paths, ok := rdoc["paths"].(map[string]any); ok {
+					paths["/chain"] = map[string]any{"get": map[string]any{
+						"responses": map[string]any{"200": map[string]any{"description": "d"}},
+						"callbacks": map[string]any{"cb": map[string]any{"$ref": g.ref(0, a, "/components/callbacks/Tcallback")}},
+					}}
+				}
+			}
+		}
+	}
 	return s
 }
